@@ -907,7 +907,7 @@ func checkNonceBeforeEncrypt(p *Prog, r *Report) {
 	var sites []encSite
 	for _, s := range p.dynIfaceCalls(blockCryptT, "Encrypt") {
 		if rootFuncInfo(s.Fn) == fi {
-			sites = append(sites, encSite{s.Call, p.Term(s.Call.Args[1]), "Encrypt"})
+			sites = append(sites, encSite{s.Call, fa.AtNode(s.Call).Resolve(p.Term(s.Call.Args[1])), "Encrypt"})
 		}
 	}
 	for _, s := range p.CallsTo(p.Method("aeadCrypt", "Seal")) {
